@@ -481,13 +481,27 @@ Definition run_for (o : oracle) (x : kind) : action :=
   | _ => ([], OBuiltin RIterOnce)
   end.
 
+(* run_access_inner's first map arm: `Map(map) if map.contains_meta_key(&ReadOp::Access.into())`:
+   an @access override receives EVERY `.` access with (self, key), core-library method names
+   included, before the data / @meta / @base / iterator-module lookups.  `x.to_tuple()` then calls
+   whatever @access returned: the functions' tagged values (String, Bool, Null, List) are not
+   callable, so the call is an UnexpectedType error *)
+Definition access_override_call (o : oracle) : action :=
+  ([Ev L k_access WL [WKey]],
+   match o L k_access with
+   | FUnimpl => OErr EThrownUnimpl
+   | FErr ek => OErr (EUser ek)
+   | _ => OErr EType
+   end).
+
 (* `x.to_tuple()`: run_access_inner finds iterator.to_tuple through the iterator fallback (only
    for maps with @iterator / @next and iterable objects), which calls KotoVm::make_iterator *)
 Definition run_to_tuple (o : oracle) (x : kind) : action :=
   match x with
   | VMap [] => ([], OBuiltin RIterBuiltin)   (* no metamap: core map module, then the iterator module *)
   | VMap ks =>
-      if has k_next ks then next_calls false o k_next
+      if has k_access ks then access_override_call o
+      else if has k_next ks then next_calls false o k_next
       else if has k_iterator ks then
         let e := Ev L k_iterator WL [] in
         match o L k_iterator with
@@ -517,7 +531,8 @@ Definition run_reversed (o : oracle) (x : kind) : action :=
   match x with
   | VMap [] => ([], OBuiltin RIterBuiltin)
   | VMap ks =>
-      if has k_next ks then
+      if has k_access ks then access_override_call o
+      else if has k_next ks then
         if has k_next_back ks then next_calls false o k_next_back
         else ([], OErr EString)        (* "not bidirectional" *)
       else if has k_iterator ks then
@@ -656,8 +671,9 @@ Definition inspected (p : op) : list metakey :=
   | OpUnary UDisp => [k_display]
   | OpUnary UDbg => [k_debug; k_display]
   | OpUnary UCallOp => [MCall]
-  | OpUnary UFor | OpUnary UToTuple => [k_next; k_iterator]
-  | OpUnary UReversed => [k_next; k_next_back; k_iterator]
+  | OpUnary UFor => [k_next; k_iterator]
+  | OpUnary UToTuple => [k_next; k_iterator; k_access]
+  | OpUnary UReversed => [k_next; k_next_back; k_iterator; k_access]
   | OpIndex => [k_index]
   | OpIndexAssign => [k_index_assign]
   | OpAccessAssign => [k_access_assign]
